@@ -1,0 +1,15 @@
+//go:build !verif
+
+// Package verifhook carries the observation points used by the runtime
+// monitors in /verif.  With the build tag "verif" off (the default) every
+// function is empty and inlined away.
+package verifhook
+
+// Enabled reports whether the hooks are compiled in.
+const Enabled = false
+
+// OOBRead is a no-op without the verif build tag.
+func OOBRead(x, y, w, h int) {}
+
+// DMStep is a no-op without the verif build tag.
+func DMStep(pos, mode, codewords int) {}
